@@ -57,6 +57,54 @@ func c04Conc(c *Ctx, name string, T int, threads, reqs int, b vsched.Bounds) Sch
 	}
 }
 
+// c04ConcExpired: the entry is cached and already past its lifetime when the threads start: whoever is answered
+// from it is answered with a response that had expired before the request began.
+func c04ConcExpired(c *Ctx, name string, T int, threads int, b vsched.Bounds) Sched {
+	cfg := env.BasicConfig(config.CacheConfig{})
+	return Sched{
+		Name:   name,
+		Opt:    vsched.Options{Ticks: []int64{1}},
+		Bounds: b,
+		Setup: func() ([]func(), func(*vsched.Exec) *vsched.Violation, func() string) {
+			e := getEnv(cfg, "basic")
+			freshCaches(cfg)
+			vtime.Set(vtime.Base)
+			e.Respond = func(oc *env.OriginCall) env.OriginResp { return env.Cacheable(oc, T, "p") }
+			pro := e.Do(env.Req{URI: "/k1", Rid: "pro"})
+			proSerial, _, _, _, _, _ := env.ParseSelf(pro.Body)
+			vtime.Add(int64(T) + 1)
+			vsched.ClockStart = vtime.Get()
+			e.Events()
+			var bodies []func()
+			for i := 0; i < threads; i++ {
+				i := i
+				bodies = append(bodies, func() { e.Do(env.Req{URI: "/k1", Rid: fmt.Sprintf("t%d.0", i)}) })
+			}
+			var an *analysis
+			check := func(x *vsched.Exec) *vsched.Violation {
+				an = analyze(e.Events())
+				if x.Deadlock || x.Livelock || len(x.Panics) > 0 {
+					return nil
+				}
+				if v := an.selfCheck(); v != nil {
+					return v
+				}
+				if v := an.labelTruth(); v != nil {
+					return v
+				}
+				for _, rid := range an.Order {
+					r := an.Reqs[rid].Res
+					if ser, _, _, _, _, ok := env.ParseSelf(r.Body); ok && ser == proSerial {
+						return &vsched.Violation{Sig: "stale-hit", Msg: fmt.Sprintf("request %s (labelled %s) began %d s after the stored response (lifetime %d) was obtained and was still answered with it", rid, r.XStatus, r.ClockBegin-vtime.Base, T)}
+					}
+				}
+				return nil
+			}
+			return bodies, check, func() string { return an.summary() }
+		},
+	}
+}
+
 // freshnessCheck: interval-sound freshness and Age oracle for concurrent runs (origin sends no Age).
 func freshnessCheck(an *analysis, T int) *vsched.Violation {
 	// fetch table: serial -> [obtained_min, obtained_max]
@@ -132,6 +180,23 @@ func init() {
 			}}
 			c.runBFS("bfs-smaxage3-age"+oa, sys, 10, nil)
 		}
+		// epochs of different kinds on one key: a stored response, its expiry, then an uncacheable or failing refetch
+		// (the hit-for-pass marker must not resurrect the expired response), then cacheable again
+		{
+			cfg := env.BasicConfig(config.CacheConfig{HitForPass: "2s"})
+			sys := &keySys{cfg: cfg, cfgKey: "hfp-2s", P: 2, events: []keyEvent{
+				{Name: "GET(origin:max-age=1)", Kind: "get", Ans: "cacheable", T: 1},
+				{Name: "GET(origin:uncacheable)", Kind: "get", Ans: "uncacheable"},
+				{Name: "GET(origin:error)", Kind: "get", Ans: "error"},
+				{Name: "tick+1", Kind: "tick", D: 1},
+				{Name: "tick+2", Kind: "tick", D: 2},
+			}}
+			d := 7
+			if c.Thorough() {
+				d = 9
+			}
+			c.runBFS("bfs-T1-mixed-epochs", sys, d, nil)
+		}
 		// the origin's Date header (correct, ahead, behind) has no say in the lifetime
 		for _, od := range []string{"0", "+8", "-8"} {
 			cfg := env.BasicConfig(config.CacheConfig{})
@@ -159,6 +224,7 @@ func init() {
 			pre = 3
 		}
 		c.RunSched(c04Conc(c, "conc2x2-T1", 1, 2, 2, vsched.Bounds{Preempt: pre, Tick: 3, Data: -1, Total: pre + 2}))
+		c.RunSched(c04ConcExpired(c, "conc3-after-expiry-T1", 1, 3, vsched.Bounds{Preempt: pre, Tick: 1, Data: -1, Total: pre + 1}))
 		c.RunSched(c04Conc(c, "conc3-T2", 2, 3, 1, vsched.Bounds{Preempt: pre, Tick: 3, Data: -1, Total: pre + 2}))
 	})
 }
